@@ -101,7 +101,13 @@ pub fn depth_prog(family: &str, n: usize) -> (Prog, String) {
 fn same_json(text: &str, expect: &str) -> bool {
 	let a: Option<Value> = serde_json::from_str(text).ok();
 	let b: Option<Value> = serde_json::from_str(expect).ok();
-	a.is_some() && a == b
+	if a.is_some() && b.is_some() {
+		return a == b;
+	}
+	// serde_json refuses documents nested deeper than 128 levels; the closed forms that deep contain
+	// no strings, so comparing with all whitespace removed is exact
+	let strip = |s: &str| s.chars().filter(|c| !c.is_whitespace()).collect::<String>();
+	strip(text) == strip(expect)
 }
 
 // ---------------------------------------------------------------------------------------------
